@@ -31,6 +31,7 @@ var lenientCBOR = [][]byte{
 }
 
 var lenientUBJSON = [][]byte{
+	{'[', '$', 'N', '#', 'i', 3}, {'{', '$', 'N', '#', 'i', 2}, {'[', '$', 'N', '#', 'U', 200}, {'$', 'N'}, {'[', '$', 'N'},
 	{'N'}, {'N', 'N'}, {'Z'}, {'#'}, {'$'}, {'H', 'i', 1, '1'}, {'C', 'a'}, {'S', 'i', 0}, {' '}, {'\n'}, {0xef, 0xbb, 0xbf}, {'h'}, {'B'}, {'s'},
 }
 
